@@ -36,6 +36,17 @@ class Client:
         self.its = {}
         self.sps = {}
         self.seen = {}
+        self.job_export = None
+        self.problems = []
+
+    def job_untouched(self, op):
+        """the Job a client holds is an input of every later call (iterators, dependency graph, export): no call
+        may change it, not even the order of a list inside it"""
+        if self.job is not None and self.job_export is not None and op[0] != "create":
+            now = repr(model_to_object(model=self.job))
+            if now != self.job_export:
+                self.problems.append(f"the Job was modified by {list(op)}")
+                self.job_export = now
 
     def pv(self):
         return {k: ParameterValue(type=ParameterValueType(self.types[k]), value=v) for k, v in self.vals.items() if k in self.types}
@@ -54,6 +65,11 @@ class Client:
         return None
 
     def run(self, op):
+        r = self.run1(op)
+        self.job_untouched(op)
+        return r
+
+    def run1(self, op):
         kind = op[0]
         try:
             if kind == "preprocess":
@@ -62,11 +78,22 @@ class Client:
             if kind == "create":
                 self.job = create_job(job_template=self.jt, job_parameter_values=self.pv())
                 self.sps, self.its, self.seen = {}, {}, {}
+                self.job_export = repr(model_to_object(model=self.job))
                 return model_to_object(model=self.job)
             if kind == "export":
                 return model_to_object(model=self.jt)
+            if kind == "setattr":
+                try:
+                    setattr(self.jt, "name", "hacked")
+                    return "ASSIGNED"
+                except TypeError:
+                    return "frozen"
             if self.job is None:
                 return "no-job"
+            if kind == "graph":
+                g = StepDependencyGraph(job=self.job)
+                return [[s.name for s in g.topo_sorted()], g.max_indegree, g.max_outdegree,
+                        sorted([e.origin.step.name, e.dependent.step.name] for st in self.job.steps for e in g.step_node(stepname=st.name).in_edges)]
             step = self.job.steps[op[1] % len(self.job.steps)]
             if kind in ("iter", "iter2"):
                 self.seen[(op[1], "next" if kind == "iter" else "next2")] = []
@@ -97,15 +124,6 @@ class Client:
                 except IndexError:
                     return "IndexError"
                 return sorted([k, v.type.value, v.value] for k, v in ps.items())
-            if kind == "graph":
-                g = StepDependencyGraph(job=self.job)
-                return [s.name for s in g.topo_sorted()]
-            if kind == "setattr":
-                try:
-                    setattr(self.jt, "name", "hacked")
-                    return "ASSIGNED"
-                except TypeError:
-                    return "frozen"
         except DecodeValidationError:
             return "DecodeValidationError"
         except ValueError:
@@ -195,6 +213,24 @@ class C18(core.PropBase):
                 pa = list(rng.choice(ITER_PROGRAMS))
                 pb = pb[:2]
             yield {"kind": "history", "doc": doc, "va": va, "vb": vb, "pa": [list(o) for o in pa], "pb": [list(o) for o in pb]}
+        # 2b. Jobs whose steps list several dependencies out of job order: the dependency graph, the iterators and
+        #     the export read the Job and must leave it as it is
+        for i in range(40 if thorough else 6):
+            names = ["Fetch", "Build", "Test", "Pack", "Publish", "Notify"][:rng.randint(4, 6)]
+            steps = []
+            for k, nm in enumerate(names):
+                st = {"name": nm, "script": {"actions": {"onRun": {"command": "c {{Param.N}}"}}}}
+                if k >= 2:
+                    deps = rng.sample(names[:k], rng.randint(2, k))
+                    rng.shuffle(deps)
+                    if deps == sorted(deps, key=names.index):
+                        deps.reverse()
+                    st["dependencies"] = [{"dependsOn": d} for d in deps]
+                steps.append(st)
+            doc = {"specificationVersion": "jobtemplate-2023-09", "name": "n", "parameterDefinitions": [{"name": "N", "type": "INT", "default": 2}], "steps": steps}
+            pa = [("create",), ("graph",), ("export",), ("graph",)][:rng.randint(2, 4)]
+            pb = [("create",), ("graph",)]
+            yield {"kind": "history", "doc": doc, "va": {"N": "5"}, "vb": {}, "pa": [list(o) for o in pa], "pb": [list(o) for o in pb]}
         # 3. threads: the same operations from 2-8 threads on one shared template
         for i in range(6 if thorough else 2):
             doc = G.gen_job_template(rng, full=True)
@@ -205,7 +241,7 @@ class C18(core.PropBase):
         return ("(1) histories of 2-5 resolve() calls with different symbol tables on ONE shared FormatString object, against the Coq model that writes and "
                 "reads the scratch slots; (2) two clients sharing one decoded template, ALL interleavings of two programs of 2-3 calls each "
                 "(preprocess, create_job, model_to_object, iter/next/len/getitem on a created Job, dependency graph, attribute assignment): every call's result "
-                "equals the result of the same program run alone on a private copy, template export and value maps unchanged afterwards; (3) 2-8 threads "
+                "equals the result of the same program run alone on a private copy, the Job a client holds is unchanged by every later call on it (dependency graph over steps with several dependencies listed out of job order included), template export and value maps unchanged afterwards; (3) 2-8 threads "
                 "calling create_job with different values on one shared template, each result equal to the isolated one. distinct = by case")
 
     def samples(self, tier, seed):
@@ -235,13 +271,16 @@ class C18(core.PropBase):
             pa, pb = [tuple(o) for o in case["pa"]], [tuple(o) for o in case["pb"]]
             # isolated runs: each client alone on a private decoded copy
             iso = {}
+            early = []
             for who, vals, prog in (("A", case["va"], pa), ("B", case["vb"], pb)):
                 c = Client(decode_job_template(template=copy.deepcopy(doc)), doc, vals)
                 iso[who] = [c.run(o) for o in prog]
+                for pr in c.problems:
+                    early.append([who, pr])
                 prob = c.iterations_independent()
                 if prob:
                     iso[who] = ["NOT-INDEPENDENT", prob]
-            bad = []
+            bad = list(early)
             for who in ("A", "B"):
                 if iso[who] and iso[who][0] == "NOT-INDEPENDENT":
                     bad.append([who, iso[who][1][:300]])
@@ -258,6 +297,9 @@ class C18(core.PropBase):
                     bad.append(["".join(w for w, _ in sched), "results differ from isolated runs"])
                 if repr(model_to_object(model=jt)) != before:
                     bad.append(["".join(w for w, _ in sched), "template changed"])
+                for w in ("A", "B"):
+                    for pr in cl[w].problems:
+                        bad.append(["".join(x for x, _ in sched), w + ": " + pr])
                 if cl["A"].vals != case["va"] or cl["B"].vals != case["vb"]:
                     bad.append(["".join(w for w, _ in sched), "value map changed"])
             return ["history", bad[:3]]
